@@ -1,7 +1,7 @@
 from common import T_COMMON
 
 CFG = dict(
-    modules=["PolyVerif.Props.C03", "PolyVerif.Props.C03Values", "PolyVerif.Props.C03Normals", "PolyVerif.Props.C03Laplacian", "PolyVerif.Props.C03WeldUnweld", "PolyVerif.Props.C03Callbacks"],
+    modules=["PolyVerif.Props.C03", "PolyVerif.Props.C03Values", "PolyVerif.Props.C03Normals", "PolyVerif.Props.C03Laplacian", "PolyVerif.Props.C03WeldUnweld", "PolyVerif.Props.C03Callbacks", "PolyVerif.Props.C03More"],
     gen=[dict(spec="transform.json", out="Transform.lean")],
     theorems=["unweld_spec", "unweld_idem", "removeUnreferenced_spec", "removeUnreferenced_allReferenced", "filterAttr_allReferenced", "flip_spec", "flip_flip", "flip_rejects",
               "toPointCloud_spec", "split_single", "split_rejects_non_triangle", "split_partition", "split_spec", "weld_corners", "weld_representative", "weld_survivors", "weld_spec", "weld_keyCorners", "weld_unweld", "append_spec", "append_rejects", "append_cornersOrZero", "repeatMesh_corners", "filterAttr_spec", "crop_spec", "removeNullFaces_spec", "filterAttr_rejects", "crop_rejects", "removeNullFaces_rejects", "weld_rejects", "scanAttr_spec", "scanVisits_spec", "scanPrimitives_spec", "modifyAttrIdx_spec", "modifyAttrIdx_rejects", "setAttr_spec", "modifyAttr_spec", "mapAttr_spec", "modifyAttr_rejects",
@@ -9,9 +9,13 @@ CFG = dict(
               "normalize_spec", "translate_post", "scaleAbout_post", "rotate_post", "rotate_unit_post", "applyTRS_post", "center_post", "normalize_post",
               "smoothAccum_sum", "smoothAccum_perm", "smoothNormals_values", "smoothNormalAt_unit", "smoothNormalAt_unreferenced", "smoothNormals_spec",
               "normalized_idem", "lastFace_unwelded", "flatNormalAt_unwelded",
-              "flatNormals_spec_nondegenerate", "lapUpdate_value_with_neighbours", "neighbours_ne_nil_of_edge", "laplacian_order_independent", "lapIter_any_enumeration", "neighbours_mem", "neighbours_nodup", "laplacian_frame", "smoothNormals_frame", "flatNormals_frame"],
+              "flatNormals_spec_nondegenerate", "lapUpdate_value_with_neighbours", "neighbours_ne_nil_of_edge", "laplacian_order_independent", "lapIter_any_enumeration", "neighbours_mem", "neighbours_nodup", "laplacian_frame", "smoothNormals_frame", "flatNormals_frame",
+              # round 2 (Props/C03More.lean)
+              "aabbContains_closed", "aabbContains_corners", "crop_contract", "crop_deciding_attr", "scaleAlongNormal_spec", "scaleAlongNormal_rejects", "scaleAlongNormal_rejects_wf",
+              "scale2D_spec", "normalize2D_spec", "scale2D_rejects", "normalize2D_rejects", "copyAttr_spec", "alongNormal_post", "scale2D_post"],
     # unfoldings of model definitions / statements over R that do not transfer to Go on the excluded float-only branches
-    helper_theorems=["laplacian_spec", "lapSweepWith_succ", "lapSweepWith_untouched", "flatNormals_spec", "flatNormals_values", "lapUpdate_value", "flatAccum_last"],
+    helper_theorems=["laplacian_spec", "lapSweepWith_succ", "lapSweepWith_untouched", "flatNormals_spec", "flatNormals_values", "lapUpdate_value", "flatAccum_last",
+                     "keepAt_eq_compact", "keepAt_map_self", "stripEmpty_attrs_zero", "stripEmpty_attrs_pos", "alongNormal_v3"],
     streams=[dict(name="c03", n=dict(quick=400, thorough=40000),
                   # LaplacianSmooth sums the neighbours in Go map order: ONLY the smoothed attribute's values (line c03.op.laplacian) are compared
                   # within a tolerance; shape (c03.op.laplacian_shape) and all other attributes (frame_spec) exactly
@@ -41,10 +45,14 @@ CFG = dict(
              "weld_unweld concludes only the per-corner KEYS of the welded attribute (same survivors, same order): weaker than 'attribute content within its rounding cell' - the other "
              "attributes of a corner come from the first VERTEX of the key class in weld m and from the first CORNER of the key class in weld (unweld m), and differ in general",
              "neighbour list = the vertices joined to v by an edge of an index triple, each once; an index triple (v, v, w) makes v its OWN neighbour (Go's Link(v, v) and the model agree)",
-             "crop_spec is for identity-indexed point clouds: CropFloat3Attribute ignores the incoming indices (observation, see notes/C03.md)",
+             "crop: crop_spec (per-corner form) is for identity-indexed point clouds; round 2 adds crop_contract (Props/C03More.lean): the vertex-level contract for ANY incoming index "
+             "buffer (survivors = vertices whose deciding value is inside, original order, one flag list for all attribute arrays, identity indices, materials carried), oracle "
+             "c03.holds.crop_contract on every crop output; that CropFloat3Attribute ignores the incoming indices stays an observation (notes/C03.md). aabbContains_closed is over R about "
+             "the regenerated AABB.Contains (Gen/Transform.lean) the driver runs at Float: IEEE comparisons with NaN (all false => a NaN point is INSIDE every box) are covered by "
+             "correspondence only",
              "the weld theorems hold for every key function; that the Go key is Vector3ToInt (with the platform-specific int(NaN)) is part of the driver, checked by correspondence only",
-             "IEEE rounding of the transform maps; Tri.Area3D (keep decision passed to the model); SliceByPlane, ScaleAttributeAlongNormal, 2-D variants, "
-             "SmoothNormalsImplicitWeld, LaplacianSmoothAlongAxis, colour ops not modelled (C02 runs them through the WF oracle only)"],
+             "IEEE rounding of the transform maps; Tri.Area3D (keep decision passed to the model); SliceByPlane, "
+             "SmoothNormalsImplicitWeld, LaplacianSmoothAlongAxis, colour ops (VertexColorSpace: math.Pow, ColorGradingLut) not modelled (C02 runs them through the WF oracle only); round 2: ScaleAttributeAlongNormal, ScaleAttribute2D, NormalizeAttribute2D, CopyFloatNAttribute are modelled (Model/MeshMore.lean), bit-exact correspondence + frame/map theorems; normalize2D has no independent value theorem (its 3-D twin has normalize_post)"],
     assumptions=["float64 arithmetic in Go on amd64 is IEEE-754 without FMA contraction (transform maps are compared bit-for-bit)",
                  "Go int(float64) of NaN / out-of-range values is math.MinInt64 (amd64 CVTTSD2SI), mirrored by the driver's weld key"],
     manifest=dict(
